@@ -223,6 +223,9 @@ func (re *RuleEnv) installCommonModels() {
 	in.Models["valid.GetJoinFieldErr"] = func(in *Interp, site ssa.Instruction, cc *ssa.CallCommon, a []AVal) (AVal, bool) {
 		return Tok{Dom: "clause", Name: "field", Args: a}, true
 	}
+	in.Models["errors.New"] = func(in *Interp, site ssa.Instruction, cc *ssa.CallCommon, a []AVal) (AVal, bool) {
+		return Tok{Dom: "err", Name: "new", Args: a}, true // never nil
+	}
 	in.Models["fmt.Errorf"] = func(in *Interp, site ssa.Instruction, cc *ssa.CallCommon, a []AVal) (AVal, bool) {
 		if t, ok := a[0].(Tok); ok && t.Dom == "clause" {
 			return Ifc{V: Tok{Dom: "err", Name: "errorf", Args: []AVal{t}}, Dyn: types.Universe.Lookup("error").Type()}, true
